@@ -16,6 +16,7 @@ RULES = {
     "R5": "KNeighbors: tree and data_ from the same fit call, gather data_[indices], k = self.k, reduce along axis=1",
     "R6": "SciPy gridders: fit stacks (ravel E, ravel N) columns and ravel(data) values; predict passes (E, N)",
     "R7": "Trend predict and jacobian use the same monomials easting^i * northing^j for the same combinations; coefficient k pairs with combination k",
+    "R8": "the shared helpers number the points like the data: n_1d_arrays ravels in C order, kdtree indexes the points in n_1d_arrays order",
 }
 ASSUMPTIONS = ["the tolerance/conditioning statement and every numeric equality are declined (solver accuracy is a property of LAPACK/scikit-learn, not of verde's source)"]
 LS = "verde.base.least_squares.least_squares"
@@ -39,6 +40,11 @@ def r1_r2_fits(ctx):
                 ctx.add("R1", "%s|validated-input|%s" % (qn, tag), "VIOLATED", "fit does not validate its input", fn=qn)
                 continue
             sets = {e.data[1]: e.data[2] for e in p.events if e.kind == "setattr" and e.data[0] == Q.SELF}
+            if store.endswith("_"):
+                # the None-ness of the constructor parameter selects "forces at the data points"; a fit that fills the parameter in
+                # makes every later fit take the given-forces branch with the FIRST data set's points
+                ctx.check("R1", "%s|force_coords-parameter-untouched|%s" % (qn, tag), False if "force_coords" in sets else True, "fit leaves the constructor parameter force_coords alone",
+                          bad="fit writes self.force_coords: a refit on other data keeps the first data set's force positions and no longer interpolates", fn=qn)
             jc = [e.data[0] for e in p.events if e.kind == "call" and e.data[0][1] == ("attr", Q.SELF, "jacobian")]
             ls = [e.data[0] for e in p.events if e.kind == "call" and callee(e.data[0]) == LS]
             if len(jc) != 1 or len(ls) != 1:
@@ -319,3 +325,4 @@ def check(ctx):
         ctx.alias = {}
     r6_scipy(ctx)
     r7_trend(ctx)
+    K.point_order_contract(ctx, "R8")
